@@ -1,4 +1,4 @@
-import Eru.Cluster2.ProofsSteps
+import Eru.Cluster2.ProofsCreate
 /-
 C14 — a crash during deployment is repaired by recovery.
 
@@ -21,6 +21,24 @@ theorem crash_recover_valid (s0 : St R) (tr : List (Step R)) (i : Nat)
     (hpre : Pre s0) (hv : validTrace s0 tr = true) :
     Good (recover (crashAfter i s0 tr)) :=
   recover_good _ (exec_inv _ s0 (pre_inv s0 hpre) (validTrace_take tr s0 i hv))
+
+/-- **C14 for the deployment code as written (after the fix of D14).**  For every start state
+satisfying `Pre`, every plan (any number of nodes, any number of instances per node, any
+resources) whose nodes are among the logged ones and whose container ids are fresh and distinct,
+and EVERY crash index `i` (0 … number of steps, beyond = completed deployment): recovery in a
+fresh instance yields consistent usage on every node, no marker, no pending event, and every
+recorded instance running. -/
+theorem crash_recover (s0 : St R) (nodes : List String) (plan : Plan R) (i : Nat) (hpre : Pre s0)
+    (hsub : ∀ e ∈ plan, e.1 ∈ nodes) (hfresh : ∀ j ∈ planIds plan, recorded s0 j = false)
+    (hnd : (planIds plan).Nodup) :
+    Good (recover (crashAfter i s0 (createSteps nodes plan))) :=
+  crash_recover_valid s0 _ i hpre (create_valid s0 nodes plan hpre hsub hfresh hnd)
+
+/-- the fixed code respects the WAL protocol (the statement the harness re-checks on every observed trace) -/
+theorem create_respects_protocol (s0 : St R) (nodes : List String) (plan : Plan R) (hpre : Pre s0)
+    (hsub : ∀ e ∈ plan, e.1 ∈ nodes) (hfresh : ∀ j ∈ planIds plan, recorded s0 j = false)
+    (hnd : (planIds plan).Nodup) : validTrace s0 (createSteps nodes plan) = true :=
+  create_valid s0 nodes plan hpre hsub hfresh hnd
 
 /-- The invariant behind it ("every committed effect not yet final is covered by a pending
 event") holds after every prefix. -/
